@@ -189,37 +189,45 @@ class Run:
         """Build Props/<id>.vo (with everything it depends on), then re-run coqc on
         Props/<id>.v to read Print Assumptions.  Fills self.obligations."""
         props = COQ / "Props" / ("%s.v" % self.pid)
-        src = strip_coq_comments(props.read_text())
-        names = re.findall(r"^\s*(?:Theorem|Example)\s+(\w+)", src, re.M)
-        printed = re.findall(r"Print Assumptions\s+(\w+)\s*\.", src)
+        units = [self.pid]
+        if "dfield" in strip_coq_comments(props.read_text()) and (COQ / "Props" / "Domain.v").exists():
+            # theorems quantified over the abstract differential field: the inhabitedness of that structure
+            # (Props/Domain.v, instance in Core/DFieldInst.v) is an obligation of the same run
+            units.append("Domain")
         gate = self.grep_gate()
-        ok = self.coq_build(["Props/%s.vo" % self.pid] + list(extra_targets))
-        assum = {}
-        if ok:
-            rc, out = sh("coqc %s -w none Props/%s.v" % (QFLAGS, self.pid), cwd=COQ, timeout=900)
-            ok = rc == 0
-            blocks = re.split(r"(?m)^(?=Closed under the global context|Axioms:)", out)
-            blocks = [b for b in blocks if b.startswith("Closed under") or b.startswith("Axioms:")]
-            for n, b in zip(printed, blocks):
-                assum[n] = b.strip()
-            if len(blocks) != len(printed):
-                ok = False
-                self.notes.append("Print Assumptions blocks %d != expected %d" % (len(blocks), len(printed)))
-            if not ok:
-                self.build_log += "\n" + out
-        for n in names:
-            a = assum.get(n)
-            disch = ok and not gate
-            axioms = []
-            if a and a.startswith("Axioms:"):
-                axioms = re.findall(r"^(\S+)\s*:", a[len("Axioms:"):], re.M)
-                if any(x not in STDLIB_AXIOMS for x in axioms):
+        ok = self.coq_build(["Props/%s.vo" % u for u in units] + list(extra_targets))
+        for u in units:
+            src = strip_coq_comments((COQ / "Props" / ("%s.v" % u)).read_text())
+            names = re.findall(r"^\s*(?:Theorem|Example)\s+(\w+)", src, re.M)
+            printed = re.findall(r"Print Assumptions\s+(\w+)\s*\.", src)
+            assum = {}
+            uok = ok
+            if ok:
+                rc, out = sh("coqc %s -w none Props/%s.v" % (QFLAGS, u), cwd=COQ, timeout=900)
+                uok = rc == 0
+                blocks = re.split(r"(?m)^(?=Closed under the global context|Axioms:)", out)
+                blocks = [b for b in blocks if b.startswith("Closed under") or b.startswith("Axioms:")]
+                for n, b in zip(printed, blocks):
+                    assum[n] = b.strip()
+                if len(blocks) != len(printed):
+                    uok = False
+                    self.notes.append("%s: Print Assumptions blocks %d != expected %d" % (u, len(blocks), len(printed)))
+                if not uok:
+                    self.build_log += "\n" + out
+                    ok = False
+            for n in names:
+                a = assum.get(n)
+                disch = uok and not gate
+                axioms = []
+                if a and a.startswith("Axioms:"):
+                    axioms = re.findall(r"^(\S+)\s*:", a[len("Axioms:"):], re.M)
+                    if any(x not in STDLIB_AXIOMS for x in axioms):
+                        disch = False
+                if n in printed and a is None:
                     disch = False
-            if n in printed and a is None:
-                disch = False
-            self.obligations.append({"name": n, "discharged": bool(disch),
-                                     "assumptions": a if a is not None else "(not printed)",
-                                     "axioms": axioms})
+                self.obligations.append({"name": n, "discharged": bool(disch),
+                                         "assumptions": a if a is not None else "(not printed)",
+                                         "axioms": axioms})
         self.gate = gate
         self.proof_ok = ok and not gate and all(o["discharged"] for o in self.obligations) \
             and len(self.obligations) > 0
